@@ -81,7 +81,15 @@ def explore(acc, specname, inits, family, max_depth=None, deadline=None,
             break
         jobs = [(specname, init, hist, k) for init, hist, k in frontier]
         cs = max(1, min(64, len(jobs) // (core.NPROC * 8) or 1))
-        results = core.pmap(_expand, jobs, cs)
+        # a layer is expanded in slices so that the deadline also holds inside a very wide layer (a change to
+        # the library can make states stop merging: the search must then stop at its budget, not run for hours)
+        results = []
+        step_ = max(core.NPROC * cs * 4, 256)
+        for lo in range(0, len(jobs), step_):
+            if deadline is not None and time.time() > deadline and lo:
+                capped = True
+                break
+            results.extend(core.pmap(_expand, jobs[lo:lo + step_], cs))
         nxt = []
         for (init, hist, _), res in zip(frontier, results):
             if isinstance(res, tuple) and res and res[0] == "DIVERGED":
@@ -100,6 +108,9 @@ def explore(acc, specname, inits, family, max_depth=None, deadline=None,
                     seen[kd] = True
                     nxt.append((init, hist + (op,), kd))
                     acc.sample(family, len(seen), (init, hist + (op,)))
+        if capped:
+            frontier = frontier[len(results):] + nxt
+            break
         frontier = nxt
         depth += 1
     else:
